@@ -326,6 +326,10 @@ def run(run: core.Run, tier: str):
   try:
     _prim(run, tier, rng, tf, Q, K, draws)
     _classes(run, tier, rng, tf, Q, K, draws, call)
+    if not quick:
+      # three more input/draw samples of the same configuration grid
+      for extra in range(3):
+        _classes(run, tier, np.random.default_rng([run.seed, extra + 1]), tf, Q, K, draws, call)
     _binary(run, tier, rng, tf, Q, K, draws, call)
     _ternary(run, tier, rng, tf, Q, K, draws, call)
     _sclasses(run, tier, rng, tf, Q, K, draws, call)
@@ -473,7 +477,11 @@ def _judge_class(run, rec, o):
   y = rec["y"]
   if isinstance(y, Exception):
     run.disagree(rec["stream"], ident, "exception: %s" % y, "value")
-    run.violate("runs", {"class": cls, "kind": type(y).__name__}, dict(ident, error=str(y)), mirrored=False)
+    if isinstance(y, DrawError) and rec["stream"] == "infer":
+      run.violate("inference_equal", {"class": cls, "kind": "random-draw-at-inference"},
+                  dict(ident, error=str(y)), mirrored=False)
+    else:
+      run.violate("runs", {"class": cls, "kind": type(y).__name__}, dict(ident, error=str(y)), mirrored=False)
     return
   if rec["left"]:
     run.disagree(rec["stream"], dict(ident, what="fewer tf.random.uniform calls than the model has draws"),
